@@ -9,4 +9,6 @@ mkdir -p out evidence
 if [ -x transcript/build.sh ]; then transcript/build.sh; fi
 # warm the cargo-fuzz build (nightly, ASan); the checks build it on demand as well
 ( cargo +nightly fuzz build --fuzz-dir fuzz > out/fuzz-build.log 2>&1 && echo "fuzz targets built" ) || echo "note: fuzz targets not built now (see out/fuzz-build.log); the checks will try again"
+# the panic=abort probe of C20 (optional: the check goes on without it)
+( cd abortprobe && { [ -f Cargo.lock ] || cp ../harness/Cargo.lock Cargo.lock; } && cargo build --offline -q --release > ../out/abortprobe-build.log 2>&1 && echo "abort probe built" ) || echo "note: abort probe not built now (see out/abortprobe-build.log)"
 echo "setup ok"
